@@ -33,6 +33,8 @@ pub enum SOp {
     /// interact on the `w % wrappers`-th wrapper of this client
     Interact { w: u8, panic: bool, cancellable: bool },
     TryLock { w: u8 },
+    /// `SyncWrapper::lock()` (only issued while no closure is using the value: it blocks)
+    Lock { w: u8 },
     Poisoned { w: u8 },
     /// `unwinding`: the wrapper is dropped by a panic unwinding the client's stack
     DropWrapper {
@@ -340,6 +342,44 @@ fn run_sop(actor: usize, op: SOp) {
                 }
             });
         }
+        SOp::Lock { w: wi } => {
+            with_s(|w| {
+                w.ops += 1;
+                let l = &w.wrappers[actor];
+                if l.is_empty() {
+                    return;
+                }
+                let (id, wr) = &l[wi as usize % l.len()];
+                let id = *id;
+                if w.closures.iter().any(|c| c.val == id && c.end_seq.is_none()) {
+                    return;
+                }
+                let expect = w.vals[id as usize].poisoned_since.is_some();
+                let got = match wr.lock() {
+                    Ok(g) => (false, g.id),
+                    Err(e) => (true, e.into_inner().as_ref().map(|v| v.id).unwrap_or(u32::MAX)),
+                };
+                if got.1 != id {
+                    w.pending_violation.get_or_insert(engine::violation("C14", "lock_gives_value", format!("lock on wrapper of #{id} gave #{}", got.1)));
+                }
+                if got.0 != expect {
+                    w.pending_violation.get_or_insert(engine::violation(
+                        "C14",
+                        if expect { "poisoned_after_panic" } else { "poisoned_only_after_panic" },
+                        format!("lock() on the wrapper of value #{id} reported poisoned = {}, a closure has panicked on it: {}", got.0, expect),
+                    ));
+                }
+                // looking at the value does not heal it
+                if expect && !wr.is_mutex_poisoned() {
+                    w.pending_violation.get_or_insert(engine::violation(
+                        "C14",
+                        "poisoned_after_panic",
+                        format!("a closure panicked on value #{id} but is_mutex_poisoned() is false after a lock() call"),
+                    ));
+                }
+                w.probe("lock_called");
+            });
+        }
         SOp::DropWrapper { w: wi, unwinding } => {
             let taken = with_s(|w| {
                 w.ops += 1;
@@ -630,7 +670,13 @@ pub fn gen_sync(rng: &mut Rng, thorough: bool) -> SScenario {
             let op = match rng.weighted(&[12, 45, 6, 8, 18]) {
                 0 => SOp::New { fail: rng.below(100) < 15, dtor_panics: rng.below(100) < 12 },
                 1 => SOp::Interact { w: rng.below(3) as u8, panic: rng.below(100) < 20, cancellable: rng.below(100) < 45 },
-                2 => SOp::TryLock { w: rng.below(3) as u8 },
+                2 => {
+                    if rng.coin() {
+                        SOp::TryLock { w: rng.below(3) as u8 }
+                    } else {
+                        SOp::Lock { w: rng.below(3) as u8 }
+                    }
+                }
                 3 => SOp::Poisoned { w: rng.below(3) as u8 },
                 _ => SOp::DropWrapper { w: rng.below(3) as u8, unwinding: rng.below(100) < 25 },
             };
@@ -749,6 +795,7 @@ impl Harness for SyncW {
                     SOp::New { fail, dtor_panics } => format!("New{}{}", if *fail { "(fail)" } else { "" }, if *dtor_panics { "!dtor_panics" } else { "" }),
                     SOp::Interact { panic, cancellable, .. } => format!("Interact{}{}", if *panic { "!panic" } else { "" }, if *cancellable { "+canc" } else { "" }),
                     SOp::TryLock { .. } => "TryLock".into(),
+                    SOp::Lock { .. } => "Lock".into(),
                     SOp::Poisoned { .. } => "Poisoned".into(),
                     SOp::DropWrapper { unwinding, .. } => format!("Drop{}", if *unwinding { "!unwinding" } else { "" }),
                     SOp::Nop => "Nop".into(),
